@@ -351,18 +351,6 @@ Definition hdr_fits (e : ev) : Prop := match e with Hdr n => n <= RECV_BUF_SIZE 
 Definition twf' (s : tst) : Prop :=
   twf s /\ lenZ (t_buf s) = RECV_BUF_SIZE /\ (t_exp s <> 0 -> turn_tot s <= RECV_BUF_SIZE).
 
-Lemma mread_some m i : 0 <= i < lenZ m -> exists v, mread m i = Some v.
-Proof.
-  intros. unfold mread. destruct (Z.leb_spec 0 i); [|lia].
-  destruct (dropZ i m) eqn:D; eauto.
-  pose proof (lenZ_dropZ i m). rewrite D in H1. rewrite lenZ_nil0 in H1. lia.
-Qed.
-Lemma mreadn_some m n : 0 <= n <= lenZ m -> exists d, mreadn m 0 n = Some d.
-Proof.
-  intros. unfold mreadn. rewrite fits_spec. simpl.
-  destruct (Z.leb_spec 0 n); [|lia]. simpl. rewrite Z.add_0_l. destruct (Z.leb_spec n (lenZ m)); [|lia]. eauto.
-Qed.
-
 Lemma payload_ok s kb o k e : pre_payload s -> lenZ (t_buf s) = RECV_BUF_SIZE -> turn_tot s <= RECV_BUF_SIZE ->
   exec (turn_payload s) kb = (o, k, e) ->
   lenZ k = lenZ kb - lenZ (takeZ (turn_tot s - t_len s) kb) /\
@@ -483,4 +471,93 @@ Proof.
   destruct (run_ok turn_body twf' hdr_fits turn_call_ok cs (alive (turn_init c))
               (fun _ => twf'_init c) ltac:(discriminate) ltac:(discriminate) G) as (A & B & _).
   auto.
+Qed.
+
+(** ** framing round trip (Google mode): what the send path emits for a message is delivered upward as exactly
+       that message, however the bytes are cut *)
+Lemma be16_split n : 0 <= n < 65536 -> be16 (w16 n / 256) (w16 n mod 256) = n.
+Proof.
+  intros. unfold be16, w16. rewrite (Z.mod_small n 65536) by lia.
+  rewrite (Z.mod_small (n / 256) 256).
+  2:{ split; [apply Z.div_pos; lia | apply Z.div_lt_upper_bound; lia]. }
+  rewrite Z.mod_mod by lia. pose proof (Z.div_mod n 256 ltac:(lia)). lia.
+Qed.
+
+Lemma exec_read {S} st req (k : list Z -> prog S) kb :
+  exec (PRead st req k) kb =
+  let '(o, kb2, e) := exec (k (takeZ req kb)) (dropZ req kb) in (o, kb2, Rd st req (lenZ (takeZ req kb)) :: e).
+Proof. reflexivity. Qed.
+Lemma mread_head x t : mread (x :: t) 0 = Some x.
+Proof. reflexivity. Qed.
+
+Lemma google_frame_delivered m : 0 < lenZ m <= 65535 ->
+  let h1 := w16 (lenZ m) / 256 in let h2 := w16 (lenZ m) mod 256 in
+  exists e s1, exec (turn_body (turn_init GOOGLE)) ([h1; h2] ++ m) = (Some (s1, 1), [], e) /\
+               vis vis_msg e = [OMsg m (-1)] /\ twf s1.
+Proof.
+  intros Lm h1 h2. set (n := lenZ m) in *.
+  set (buf := repZ 0 (Z.to_nat RECV_BUF_SIZE)).
+  assert (LB : lenZ buf = 65536) by (unfold buf; rewrite lenZ_repZ; reflexivity).
+  unfold turn_body. cbn [t_exp t_compat t_len turn_init]. change (0 =? 0) with true. cbv iota.
+  change (hdrlen GOOGLE) with (Some 2). cbv iota. change (w64 (2 - 0)) with 2.
+  rewrite exec_read.
+  assert (T2 : takeZ 2 ([h1; h2] ++ m) = [h1; h2]).
+  { rewrite takeZ_app_r by (lz; lia). lz. replace (2 - (1 + (1 + 0))) with 0 by lia. rewrite takeZ_nonpos by lia. reflexivity. }
+  assert (D2 : dropZ 2 ([h1; h2] ++ m) = m).
+  { rewrite dropZ_app_r by (lz; lia). lz. replace (2 - (1 + (1 + 0))) with 0 by lia. apply dropZ_nonpos. lia. }
+  rewrite T2, D2.
+  unfold turn_hdr_k. cbn [t_buf t_len t_compat turn_init]. fold buf.
+  change (repZ 0 (Z.to_nat RECV_BUF_SIZE)) with buf.
+  rewrite (mwrite_some buf 0 [h1; h2]) by (lz; lia).
+  rewrite (takeZ_nonpos 0 buf) by lia. lz. cbn [app].
+  set (tl := dropZ (0 + (1 + (1 + 0))) buf).
+  assert (Ltl : lenZ tl = 65534) by (unfold tl; rewrite lenZ_dropZ; lia).
+  change (0 + (1 + (1 + 0)) <? 2) with false. cbv iota.
+  unfold turn_header.
+  rewrite mread_head.
+  assert (M1 : mread (h1 :: h2 :: tl) 1 = Some h2) by reflexivity. rewrite M1.
+  destruct (mread_some (h1 :: h2 :: tl) 2 ltac:(lz; lia)) as [b2 ->].
+  destruct (mread_some (h1 :: h2 :: tl) 3 ltac:(lz; lia)) as [b3 ->].
+  change (is_rfc GOOGLE) with false. cbv iota. change (GOOGLE =? GOOGLE) with true. cbv iota.
+  rewrite frame_start_exec.
+  replace (be16 h1 h2) with n by (symmetry; apply be16_split; unfold n; lia).
+  set (s2 := {| t_compat := GOOGLE; t_buf := h1 :: h2 :: tl; t_len := 0; t_exp := n |}).
+  assert (TOT : turn_tot s2 = n).
+  { unfold turn_tot. cbn [t_exp t_compat s2]. change (padlen GOOGLE n) with 0. rewrite w32_small; lia. }
+  unfold turn_payload. rewrite TOT. cbn [t_len s2]. rewrite w64_small by (unfold W64; lia).
+  rewrite Z.sub_0_r. rewrite exec_read.
+  rewrite (takeZ_all n m) by (unfold n; lia). rewrite (dropZ_all n m) by (unfold n; lia).
+  unfold turn_payload_k. cbn [t_buf t_len t_compat t_exp s2].
+  rewrite (mwrite_some (h1 :: h2 :: tl) 0 m) by (lz; fold n; lia).
+  rewrite (takeZ_nonpos 0) by lia. cbn [app]. fold n. rewrite Z.add_0_l.
+  rewrite Z.eqb_refl.
+  set (rest := dropZ n (h1 :: h2 :: tl)).
+  assert (MR : mreadn (m ++ rest) 0 n = Some m).
+  { unfold mreadn. rewrite fits_spec, lenZ_app. fold n. pose proof (lenZ_nonneg rest).
+    destruct (Z.leb_spec 0 n); [|lia]. simpl. destruct (Z.leb_spec (0 + n) (n + lenZ rest)); [|lia].
+    rewrite (dropZ_nonpos 0) by lia. rewrite takeZ_app_l by (fold n; lia). rewrite takeZ_all by (fold n; lia). reflexivity. }
+  rewrite MR. rewrite (takeZ_all UPCAP m) by (fold n; unfold UPCAP; lia). fold n.
+  destruct (Z.ltb_spec 0 n); [|lia]. simpl exec.
+  eexists _, _. split; [reflexivity|]. split; [reflexivity|].
+  unfold twf; cbn [t_len t_exp t_compat]. repeat split; try lia.
+  intros _ hl Hh. destruct (hdrlen_cases _ _ Hh); lia.
+Qed.
+
+Theorem turn_roundtrip_google bufs cs : 0 < lenZ (concat bufs) <= 65535 ->
+  concat cs = turn_frame GOOGLE bufs ->
+  vis vis_msg (snd (run turn_body (alive (turn_init GOOGLE)) cs)) = [OMsg (concat bufs) (-1)].
+Proof.
+  intros Lm Cc. set (m := concat bufs) in *.
+  destruct (turn_seg_independent (turn_init GOOGLE) cs (twf_init GOOGLE)) as [_ V]. rewrite V, Cc.
+  unfold turn_frame. change (GOOGLE =? GOOGLE) with true. cbv iota. fold m.
+  destruct (google_frame_delivered m Lm) as (e & s1 & E & Ve & W).
+  unfold feed, alive. cbn [dead inner]. change (0 =? 0) with true. cbv iota.
+  set (fr := [w16 (lenZ m) / 256; w16 (lenZ m) mod 256] ++ m) in *.
+  assert (NE : fr <> []) by (unfold fr; discriminate).
+  assert (LF : (length fr = Datatypes.S (Datatypes.S (length m)))%nat) by reflexivity.
+  rewrite LF. rewrite drain_step by exact NE. rewrite E.
+  change (1 <? 0) with false. cbv iota.
+  assert (NEQ : (lenZ [] =? lenZ fr) = false).
+  { apply Z.eqb_neq. unfold fr. rewrite lenZ_app. lz. lia. }
+  rewrite NEQ. rewrite drain_nil. cbn [snd]. rewrite app_nil_r. exact Ve.
 Qed.
